@@ -157,15 +157,23 @@ def run_one(case):
                 cr.log_msg = wlog
             mkc(cr)
 
+        cfgtime = {}          # block -> (configuration id, reading) taken at ITS last (re)configuration
+
         def snapshot_sched(i):
-            blk = blocks[i]
-            regs = []
-            for cr in crons:
-                for t, bs in cr._alarms.items():
-                    if blk in bs:
-                        regs.append([t.hour, t.minute, t.second, t.microsecond])
+            # the block that was just (re)configured: remember the reading it was configured with
             last = [r for r in obs['recalcs'] if r['blk'] == i][-1]
-            obs['sched'].append(dict(regs=regs, cfg=last['cfg'], now=last['now']))
+            cfgtime[i] = (last['cfg'], last['now'])
+            # ... and check the registrations of EVERY block (a reconfiguration of one block must
+            # not disturb the alarms of the others)
+            for j, blk in enumerate(blocks):
+                if j not in cfgtime or len(obs['sched']) >= 300:
+                    continue
+                regs = []
+                for cr in crons:
+                    for t, bs in cr._alarms.items():
+                        if blk in bs:
+                            regs.append([t.hour, t.minute, t.second, t.microsecond])
+                obs['sched'].append(dict(regs=regs, cfg=cfgtime[j][0], now=cfgtime[j][1]))
 
         async def driver():
             await circuit.wait_init()
@@ -494,6 +502,14 @@ def directed():
     acts = [dict(k='reconfig', at=600 * US, blk=0, cfg=_td(dates=[[[1, 1], [1, 1]]])),
             dict(k='reconfig', at=900 * US, blk=1, cfg=_td(wds=[3, 4]))]
     out.append(dict(start_us=st5, blocks=b5, latency=[], read_cost=1, timeline=_tl(st5, b5, acts, 30)))
+    # a TimeSpan whose range began at midnight of the day before (an end point that is not registered) shares the scheduler with a single TimeDate;
+    # reconfiguring the span must not remove the TimeDate's midnight alarm
+    st6 = abs_of(dt.datetime(2024, 5, 10, 20, 0, 0))
+    b6 = [dict(t='ts', span=[[[2024, 5, 9, 0, 0, 0, 0], [2024, 5, 10, 22, 0, 0, 0]]], utc=False),
+          _td(dates=[[[5, 11], [5, 11]]])]
+    acts6 = [dict(k='reconfig', at=1800 * US, blk=0,
+                  cfg=dict(t='ts', span=[[[2024, 5, 10, 21, 0, 0, 0], [2024, 5, 10, 23, 0, 0, 0]]]))]
+    out.append(dict(start_us=st6, blocks=b6, latency=[], read_cost=1, timeline=_tl(st6, b6, acts6, 8)))
     return out
 
 
